@@ -34,7 +34,7 @@ T = {
          'Pipelines (chain-3, tee, rejoin) x position of the ending filter x ending (exit()/exception in init, setup, k-th process, send, recv, shutdown; stop event; exit_after as seconds, m:s string, @datetime) x propagate/obey policy pairs: all timely schedules with <= d deviations; per filter shutdown-once-iff-setup, sockets closed, stop event set, run() returns/raises; pipeline-wide the set of terminating filters equals the closure of the announcement over the connection graph.',
          E1_NOTE, '4 C08'),
  'C18': ('E1-simnet', 'model_checking', 'stateless preemption-bounded exploration of the real Filter.run main thread and the real OpenFilterLineage heartbeat thread under a controlled scheduler (scheduler-aware threading in lineage.py), capturing every emitted event',
-         'Every way a run can end (exit()/exception in init, setup, k-th process, shutdown; stop event; exit_after) x run length 0.4 / 1 / 2.5 heartbeat intervals: all interleavings of the two threads with <= 2 (quick) / 3 (thorough) preemptions at Event/Lock/emit/poll/sleep operations; history must be START RUNNING* (COMPLETE|ABORT), one run id, COMPLETE iff run() returned normally.',
+         'Every way a run can end (exit()/exception in init, setup, k-th process, shutdown; stop event; exit_after) x run length 0.4 / 1 / 2.5 heartbeat intervals: all interleavings of the two threads with <= 2 (quick) / 4 (thorough) preemptions at Event/Lock/emit/poll/sleep operations; history must be START RUNNING* (COMPLETE|ABORT), one run id, COMPLETE iff run() returned normally.',
          'The OpenLineage client is a capturing fake; lineage.threading is replaced by mc/simthread.py; memory-level races between the two threads are explored at synchronisation operations and emit calls only.', '4 C18'),
  'C07': ('E1-simnet', 'model_checking', E1_TECH,
          'Splitter with balanced outputs over 2-4 branches, workers of all speed combinations, balanced-sources joiner: all schedules with <= d deviations under arbitrary delays; each id on exactly one branch, rejoined stream duplicate-free, strictly increasing, one id per set.',
